@@ -1,5 +1,5 @@
 """C23 reported source positions are consistent."""
-REG_DRAFT = dict(
+REG = dict(
     engine='E1-enum',
     technique='bounded-exhaustive enumeration of syntax trees x layouts x character classes (non-ASCII, multi-line string literals, CRLF), single-piece edits, diagnostic / exception / session programs; invariant oracle on every position the real code reports',
     text='Every program of a depth-1 production set, the representative set and the definition-level set, in its plain form, with every string literal made multi-line (each literal position and all), and with non-ASCII text in strings and comments, under every layout with <=1 gap deviating from canonical over a 6-separator alphabet (glued, newline, newline+indent, line comment, tab, CRLF; quick) / a 10-separator alphabet (the 8 of C17 plus a non-ASCII line comment and CRLF; thorough); every single-piece delete/insert/replace of the representative programs (parse errors); 25 programs that produce check diagnostics with notes and fixes and 14 that raise at run time, each under the same variants and layouts, through the check, `run` and JSON-session entry points; `garden check --json` and `garden reftest-position` through the real CLI on a bounded subset. Oracle on every position obtained (AST nodes, comments, parse errors and notes, diagnostics, notes, fixes, exceptions, session responses, CLI output): 0 <= start <= end <= len; both on UTF-8 character boundaries; line_number = number of LF before start; column = start - line start (bytes, the unit position.rs and the lexer use); end_line_number / end_column likewise for the end offset (when the end offset sits just after a newline the line of the last byte is accepted too); check --json line numbers are the 0-based ones plus 1. Exhaustive within these bounds.',
